@@ -190,11 +190,24 @@ def noSym : E → Bool
   | .rel _ a b | .pair a b | .cons a b => noSym a && noSym b
   | _ => true
 
-/-- the printer tests `-expr.exp is S.Half` / `is S.One`: SymPy evaluates the negation, so a held constant exponent such
-    as `Mul(-1, 1/2, evaluate=False)` passes the test; outside the modelled fragment -/
+def symNames : E → List String
+  | .sym n _ => [n]
+  | .add a | .mul a | .and a | .or a | .pw a | .fn _ a => symNames a
+  | .pow b x => symNames b ++ symNames x
+  | .rel _ a b | .pair a b | .cons a b => symNames a ++ symNames b
+  | .deriv x t => [x, t]
+  | _ => []
+
+def hasDup : List String → Bool
+  | [] => false
+  | x :: xs => xs.contains x || hasDup xs
+
+/-- the printer tests `-expr.exp is S.Half` / `is S.One`: SymPy evaluates the negation, so a held exponent that is
+    constant after evaluation — `Mul(-1, 1/2, evaluate=False)`, `y - (y + 1)` — passes the test; an exponent in which no
+    symbol occurs, or one occurs twice, is outside the modelled fragment -/
 def constCompound : E → Bool
-  | .add a => noSym a
-  | .mul a => noSym a
+  | .add a => noSym a || hasDup (symNames a)
+  | .mul a => noSym a || hasDup (symNames a)
   | _ => false
 
 def powDoc (b x : E) (bd xd : Doc) : Doc :=
